@@ -47,6 +47,28 @@ let () =
         | FAdv (_, _, _, e) when i e = ntx -> apply "ScanEnd" (ScanEnd (n t))
         | _ -> () in
       (try
+        (* pass 1: direct predicates on the implementation's values, independent of the model *)
+        let st = Array.make ntx false in
+        List.iteri (fun ln l -> match String.split_on_char ' ' l with
+          | _ :: "fr_flag_store" :: x :: _ -> st.(int_of_string x) <- true
+          | _ :: "fr_result" :: v :: lo :: _ ->
+            let v = int_of_string v and lo = int_of_string lo in
+            for k = 0 to v - 1 do
+              if k >= ntx || not st.(k) then raise (Direct (Printf.sprintf "current() returned %d but executed[%d] had not been stored (line %d)" v k ln))
+            done;
+            if v < lo then raise (Direct (Printf.sprintf "current() returned %d although publish() had returned for every index below %d (line %d)" v lo ln))
+          | _ :: "fr_fetch_max" :: v :: _ ->
+            let v = int_of_string v in
+            for k = 0 to v - 1 do
+              if k >= ntx || not st.(k) then raise (Direct (Printf.sprintf "the frontier was advanced to %d but executed[%d] had not been stored (line %d)" v k ln))
+            done
+          | _ -> ()) lines;
+        (let real_f = int_of_string (field !header "final_frontier") and want = int_of_string (field !header "first_unpublished") in
+         if real_f <> want then raise (Direct (Printf.sprintf "at quiescence the frontier is %d but the first unpublished index is %d" real_f want)));
+        (* pass 2: the extracted acceptor.  The driver's interleavings are sequentially consistent, so a
+           flag load that returns false for a stored flag cannot come from the real code: reject it
+           although the model (which also covers weaker memory) would accept it as a stale load *)
+        let cur_flag_set = Hashtbl.create 8 in
         List.iteri (fun ln l -> match String.split_on_char ' ' l with
           | tid :: kind :: args ->
             let t = max 0 (int_of_string tid) in
@@ -56,14 +78,19 @@ let () =
              | "fr_pub_load1" -> pending_scan_end t; apply what (PubLoad1 (n t, n a.(0), pos_of t a.(1)))
              | "fr_flag_store" -> stored.(a.(0)) <- true; apply what (FlagStore (n t, n a.(0)))
              | "fr_pub_load2" -> apply what (PubLoad2 (n t, n a.(0), pos_of t a.(1)))
-             | "fr_flag_load" -> apply what (FlagLoad (n t, n a.(0), a.(1) = 1))
+             | "fr_flag_load" ->
+               if a.(1) = 0 && stored.(a.(0)) then raise (Rej (what ^ ": flag load returned false for a stored flag in a sequentially consistent run"));
+               apply what (FlagLoad (n t, n a.(0), a.(1) = 1))
              | "fr_fetch_max" -> pending_scan_end t; apply what (FetchMax (n t, n a.(0), n a.(1)))
-             | "fr_cur_load" -> pending_scan_end t; apply what (CurLoad (n t, pos_of t a.(0)))
+             | "fr_cur_load" -> pending_scan_end t; apply what (CurLoad (n t, pos_of t a.(0)));
+               Hashtbl.replace cur_flag_set t (a.(0) < ntx && stored.(a.(0)))
              | "fr_cur_flag" -> apply what (CurFlag (n t, a.(1) = 1))
              | "fr_cur_ret" ->
                pending_scan_end t;
                (match !s.fpcs (n t) with
-                | FCur (_, f) -> Hashtbl.replace expect_ret t (i f); apply what (CurFlag (n t, false))
+                | FCur (_, f) ->
+                  if Hashtbl.find_opt cur_flag_set t = Some true then raise (Rej (what ^ ": current() did not help although executed[frontier] was stored (sequentially consistent run)"));
+                  Hashtbl.replace expect_ret t (i f); apply what (CurFlag (n t, false))
                 | FCurRet _ -> ()
                 | _ -> raise (Rej (what ^ ": current() returns but the model is not in a returning state")))
              | "fr_result" ->
@@ -74,17 +101,13 @@ let () =
                     | Some f when f = v -> Hashtbl.remove expect_ret t
                     | _ -> raise (Rej (what ^ ": current() returned a value the model does not")))
                 | _ -> raise (Rej (what ^ ": result while the model is mid-call")));
-               for k = 0 to v - 1 do
-                 if k >= ntx || not stored.(k) then raise (Direct (Printf.sprintf "current() returned %d but executed[%d] was never stored (%s)" v k what))
-               done;
-               if v < lo then raise (Direct (Printf.sprintf "current() returned %d although publish() had returned for every index below %d (%s)" v lo what))
+               ignore lo
              | "fr_call_publish" | "fr_published" | "fr_call_current" -> pending_scan_end t
              | _ -> ())
           | _ -> ()) lines;
         for t = 0 to 8 do pending_scan_end t done;
         for t = 0 to 8 do (match !s.fpcs (n t) with FIdle -> () | _ -> raise (Rej (Printf.sprintf "thread %d finished mid-operation in the model" t))) done;
-        let real_f = int_of_string (field !header "final_frontier") and want = int_of_string (field !header "first_unpublished") in
-        if real_f <> want then raise (Direct (Printf.sprintf "at quiescence the frontier is %d but the first unpublished index is %d" real_f want));
+        let real_f = int_of_string (field !header "final_frontier") in
         let mflags = "[" ^ String.concat ", " (List.init ntx (fun k -> if !s.flags (n k) then "1" else "0")) ^ "]" in
         let real = (let hdr = !header in let k = Str.search_forward (Str.regexp_string "flags=") hdr 0 in String.sub hdr (k + 6) (String.length hdr - k - 6)) in
         if i (fcur !s) <> real_f || mflags <> real then
